@@ -225,7 +225,9 @@ fn brief_group(g: &J) -> String {
 const MASK: &[(&str, &str)] = &[];
 
 fn masked(comp: &str, opkind: &str) -> bool {
-    MASK.iter().any(|(c, o)| *c == comp && *o == opkind)
+    // VERIF_C38_SURVEY=1 (development aid): nothing is judged, the class histogram lists every divergence class
+    static SURVEY: OnceLock<bool> = OnceLock::new();
+    *SURVEY.get_or_init(|| std::env::var("VERIF_C38_SURVEY").is_ok()) || MASK.iter().any(|(c, o)| *c == comp && *o == opkind)
 }
 
 // ------------------------------------------------------------------ the health tick, mirrored from varpulis-cli/src/main.rs
